@@ -111,7 +111,7 @@ def distinct_overhangs(rng, enz, count, tries=200):
     return out if len(out) == count else None
 
 
-def gen_chain(rng, enz, q, tmin=2, tmax=8, bmax=6, vup_mirrors_start=False):
+def gen_chain(rng, enz, q, tmin=2, tmax=8, bmax=6, vup_mirrors_start=False, palindrome=False):
     """a vector and q modules chaining vdown -> ... -> vup; ground truth included.
     vup_mirrors_start: the vector's upstream overhang (the last junction) is the reverse complement of one
     module's upstream overhang (the clash rule of assemble() is about module starts only)"""
@@ -124,6 +124,15 @@ def gen_chain(rng, enz, q, tmin=2, tmax=8, bmax=6, vup_mirrors_start=False):
         ohs = distinct_overhangs(rng, enz, q + 1)
     if ohs is None:
         return None
+    if palindrome and enz["ovh"] % 2 == 0:
+        # one junction (a fusion site between two modules, or one of the vector's) is its own reverse complement
+        for _ in range(20):
+            h = rand_dna(rng, enz["ovh"] // 2)
+            p = h + rc(h)
+            if p not in ohs and enz["site"] not in p and rc(enz["site"]) not in p:
+                ohs = list(ohs)
+                ohs[rng.randrange(0, len(ohs))] = p
+                break
     vup, vdown = ohs[q], ohs[0]
     mods = []
     for j in range(q):
